@@ -433,6 +433,12 @@ lzma_index_prealloc(lzma_index *i, lzma_vli records)
 	if (records > PREALLOC_MAX)
 		records = PREALLOC_MAX;
 
+	// lzma_index_append() stores a Record into the group it has just
+	// allocated, so a group must have room for at least one Record.
+	// The Index decoder calls this with zero for an empty Index.
+	if (records == 0)
+		records = 1;
+
 	i->prealloc = (size_t)(records);
 	return;
 }
